@@ -539,6 +539,9 @@ func (e *Engine) Stop() {
 	}
 
 	e.stopListeners()
+	// connections served by a reader goroutine (blocking mode) are not known
+	// to the pollers: close them here, their readers then leave.
+	e.closeAllConns()
 	e.Engine.Stop()
 }
 
